@@ -185,6 +185,11 @@ example : NPD_WF { fresh with datatype := some 0x50, mcastaddr := some 0xEB00000
     refine ⟨by decide, by decide, by decide, by decide, fun _ => ⟨by decide, by decide⟩, fun h => absurd rfl h⟩
   · decide
 example : kindOf 0x50 = .rs232 := rfl
+/-- … and the third hypothesis of `NPD_eq_decode_rs232` (`hseg`) on the same object -/
+example : ∀ g ∈ ({ fresh with datatype := some 0x50, mcastaddr := some 0xEB000001, timestamp := some 7,
+                              segments := [{ Seg.fresh .rs232 with sync_bytes := [0xAA, 0x55], data := [1, 2, 3] }] } : State).segments,
+    g.kind = .rs232 := by
+  intro g hg; simp at hg; subst hg; rfl
 
 /-- non-vacuity of `NPD_eq_decode`: data type 1 (plain `NPDSegment`), one raw segment of six bytes -/
 example :
